@@ -102,18 +102,18 @@ Print Assumptions C06_node_hash_values_are_translated.
    of them re-opens this property even if no sampled case shows a difference.  Rewritten by tools/pin_shapes.py on a tree on which every check passes. *)
 From Connectome Require GlueHashGen.
 Theorem C06_mirrored_functions_are_the_pinned_ones :
-  GlueHashGen.shape_class_NodeHash = "f0232c87f36bf159" /\
-  GlueHashGen.shape_class_LeafHash = "05e80c5ad9a214f0" /\
-  GlueHashGen.shape_class_ApplyHash = "556e2ab8595eb443" /\
-  GlueHashGen.shape_class_GraphHash = "5654d0d1756d0a5c" /\
-  GlueHashGen.shape_class_CustomHash = "434a91b548cd8bbc" /\
-  GlueHashGen.shape_class_FunctionEdge = "17dc98d2e9afb7b6" /\
-  GlueHashGen.shape_class_ConstantEdge = "a5d6e9a227ce6207" /\
-  GlueHashGen.shape_class_ComputableHashBase = "70f75f27dd8924c3" /\
-  GlueHashGen.shape_class_External = "8a3fbf83cd7fba25" /\
-  GlueHashGen.shape_class_SimpleHash = "2e24eea69dec1725" /\
-  GlueHashGen.shape_class_SimpleHashEdge = "049321af3dcf3bc6" /\
-  GlueHashGen.shape_marker_getter = "6e1709ddfaa2cbe4".
+  GlueHashGen.shape_class_NodeHash = "f0232c87f36bf159"%string /\
+  GlueHashGen.shape_class_LeafHash = "05e80c5ad9a214f0"%string /\
+  GlueHashGen.shape_class_ApplyHash = "556e2ab8595eb443"%string /\
+  GlueHashGen.shape_class_GraphHash = "5654d0d1756d0a5c"%string /\
+  GlueHashGen.shape_class_CustomHash = "434a91b548cd8bbc"%string /\
+  GlueHashGen.shape_class_FunctionEdge = "17dc98d2e9afb7b6"%string /\
+  GlueHashGen.shape_class_ConstantEdge = "a5d6e9a227ce6207"%string /\
+  GlueHashGen.shape_class_ComputableHashBase = "70f75f27dd8924c3"%string /\
+  GlueHashGen.shape_class_External = "8a3fbf83cd7fba25"%string /\
+  GlueHashGen.shape_class_SimpleHash = "2e24eea69dec1725"%string /\
+  GlueHashGen.shape_class_SimpleHashEdge = "049321af3dcf3bc6"%string /\
+  GlueHashGen.shape_marker_getter = "6e1709ddfaa2cbe4"%string.
 Proof. repeat split; reflexivity. Qed.
 Print Assumptions C06_mirrored_functions_are_the_pinned_ones.
 (* END PINNED FINGERPRINTS *)
